@@ -142,7 +142,7 @@ let () =
             let inp = List.map (fun x -> z_of_int (int_of_string x)) (List.filter (fun x -> x <> "") ints) in
             let f = (match name with
               | "clo" -> run_clo | "buf" -> run_buf | "args" -> run_args
-              | "view" -> run_view | "edit" -> run_edit
+              | "view" -> run_view | "edit" -> run_edit | "regex" -> run_regex
               | _ -> failwith "unknown model") in
             String.concat " " (List.map (fun z -> string_of_int (int_of_z z)) (f inp))
           | _ -> "BAD-REQUEST"
